@@ -26,16 +26,33 @@ nn+2 CANCELED):
   st0      codes at the call, closing0: manager already closing at the call
   traj     list of per-tick code vectors (state after the k-th sleep)
   closing  list of booleans aligned with traj
+  mode     'direct': the trajectory is written into Task._state / Pilot._state
+           'notify': the entities start in NEW and only ever change through the
+                     REAL notification paths
+                       PilotManager._state_sub_cb -> _update_pilot -> Pilot._update
+                       TaskManager._state_sub_cb  -> _update_tasks -> Task._update
+                     fed with `notes0` (before the call) and `notes[k]` (inside
+                     the k-th sleep), lists of [entity, code].  The environment's
+                     notifications contain forward steps (with gaps), duplicates,
+                     reordered (stale) and post-final non-final ones.  The truth
+                     the waiter is judged against (logged as `st`) is the
+                     furthest state ever notified, a final one being sticky; what
+                     the objects hold is logged as `seen`.  A closing manager no
+                     longer takes notifications (its callback returns at once),
+                     so the truth stops there as well.
 '''
 
 import threading as mt
+import collections
 
 from unittest import mock
 
 from .. import rpshim
 
 rp  = rpshim.load()
+ru  = __import__('radical.utils', fromlist=['x'])
 rps = rp.states
+rpc = rp.constants
 
 import radical.pilot.task          as m_task
 import radical.pilot.pilot         as m_pilot
@@ -76,6 +93,11 @@ def code_of(api, name):
     if name in FINALS:
         return len(ch) + FINALS.index(name)
     return -1
+
+
+class _FakeSub(object):
+    def stop(self):
+        pass
 
 
 class Unwind(BaseException):
@@ -124,47 +146,127 @@ class WaitRun(object):
         self.now     = T0
         self.tick    = 0
         self.events  = []
-        self.horizon = max(len(case['traj']), case['timeout']) + K
+        self.horizon = max(len(case['traj']), len(case.get('notes', [])), case['timeout']) + K
         self.term    = mt.Event()
+        self.mode    = case.get('mode', 'direct')
+        self.notify_raised = []
         self.uids    = ['%s.%04d' % ('task' if self.api in ('task', 'tmgr') else 'pilot', i)
                         for i in range(self.ne)]
         self._build()
 
     # --------------------------------------------------------------------------
     def _build(self):
+        '''managers and entities as client_rig.py builds them: __new__ plus the
+           attributes which the wait loops and the notification paths read'''
         log = rpshim.NullLog()
         if self.api in ('task', 'tmgr'):
             mgr = rp.TaskManager.__new__(rp.TaskManager)
-            mgr._tasks_lock = mt.RLock()
-            cls, attr = rp.Task, '_tmgr'
+            mgr._tasks_lock  = mt.RLock()
+            mgr._pilots      = dict()
+            mgr._pilots_lock = mt.RLock()
+            mgr._callbacks   = {m: dict() for m in rpc.TMGR_METRICS}
+            mgr._tcb_lock    = mt.RLock()
+            mgr._closed      = False
+            mgr._task_info   = collections.defaultdict(dict)
+            make = self._make_task
         else:
             mgr = rp.PilotManager.__new__(rp.PilotManager)
             mgr._pilots_lock = mt.RLock()
-            cls, attr = rp.Pilot, '_pmgr'
+            mgr._callbacks   = {m: dict() for m in rpc.PMGR_METRICS}
+            mgr._pcb_lock    = mt.RLock()
+            make = self._make_pilot
         mgr._uid       = 'mgr.0000'
         mgr._log       = log
         mgr._rep       = log
         mgr._prof      = log
         mgr._terminate = self.term
+        mgr.advance    = lambda *a, **k: None
+        mgr.publish    = lambda *a, **k: None
+        self.mgr  = mgr
         self.ents = []
         things    = dict()
-        for uid, code in zip(self.uids, self.case['st0']):
-            e = cls.__new__(cls)
-            e._uid   = uid
-            e._state = name_of(self.api, code)
-            e._log   = log
-            setattr(e, attr, mgr)
+        start     = self.case['st0'] if self.mode == 'direct' else [0] * self.ne
+        for uid, code in zip(self.uids, start):
+            e = make(uid, name_of(self.api, code))
             self.ents.append(e)
             things[uid] = e
         if self.api in ('task', 'tmgr'): mgr._tasks  = things
         else                           : mgr._pilots = things
-        self.mgr = mgr
+        self.truth = list(start)
+        if self.mode == 'notify':
+            self.deliver(self.case['notes0'])
         if self.case['closing0']:
             self.term.set()
 
+    def _make_task(self, uid, state):
+        t = rp.Task.__new__(rp.Task)
+        t._tmgr             = self.mgr
+        t._descr            = rp.TaskDescription({'uid': uid, 'executable': '/bin/true'})
+        t._origin           = 'client'
+        t._session          = None
+        t._uid              = uid
+        t._state            = state
+        t._log              = self.mgr._log
+        t._info             = None
+        t._info_evt         = mt.Event()
+        for k in ('exit_code', 'ofiles', 'return_value', 'exception', 'exception_detail',
+                  'pilot', 'endpoint_fs', 'resource_sandbox', 'session_sandbox',
+                  'pilot_sandbox', 'task_sandbox', 'client_sandbox', 'slots', 'partition'):
+            setattr(t, '_' + k, None)
+        t._stdout           = str()
+        t._stderr           = str()
+        t._callbacks        = {m: dict() for m in rpc.TMGR_METRICS}
+        t._callbacks[rpc.TASK_STATE][t._default_state_cb.__name__] = {
+                'cb': t._default_state_cb, 'cb_data': None}
+        return t
+
+    def _make_pilot(self, pid, state):
+        p = rp.Pilot.__new__(rp.Pilot)
+        p._descr         = {'uid': pid, 'resource': 'local.localhost', 'runtime': 10}
+        p._pmgr          = self.mgr
+        p._session       = None
+        p._prof          = self.mgr._prof
+        p._uid           = pid
+        p._state         = state
+        p._log           = self.mgr._log
+        p._sub           = _FakeSub()
+        p._pilot_dict    = dict()
+        p._callbacks     = {m: dict() for m in rpc.PMGR_METRICS}
+        p._cb_lock       = ru.RLock()
+        p._tmgr          = None
+        p._nodelist      = None
+        p._exit_on_error = False
+        p._callbacks[rpc.PILOT_STATE][p._default_state_cb.__name__] = {
+                'cb': p._default_state_cb, 'cb_data': None}
+        return p
+
     # --------------------------------------------------------------------------
-    def codes(self):
+    def deliver(self, notes):
+        '''one state notification per message through the real subscriber
+           callback of the manager; the truth moves to the furthest state notified'''
+        nn   = nn_of(self.api)
+        kind = 'task' if self.api in ('task', 'tmgr') else 'pilot'
+        for ent, code in notes:
+            if self.term.is_set():
+                break                       # a closing manager takes no more updates
+            t = self.truth[ent - 1]
+            if t < nn and min(code, nn) > t:
+                self.truth[ent - 1] = code
+            msg = {'cmd': 'update', 'arg': {'type': kind, 'uid': self.uids[ent - 1],
+                                            'state': name_of(self.api, code)}}
+            try:
+                self.mgr._state_sub_cb(rpc.STATE_PUBSUB, msg)
+            except Exception as e:
+                self.notify_raised.append(repr(e)[:200])
+
+    # --------------------------------------------------------------------------
+    def seen(self):
         return [code_of(self.api, e._state) for e in self.ents]
+
+    def codes(self):
+        '''the entities' actual states: what was written (direct), the furthest
+           state notified (notify)'''
+        return self.seen() if self.mode == 'direct' else list(self.truth)
 
     def log(self, ev, **kw):
         rec = {'ev': ev, 'tick': self.tick}
@@ -182,12 +284,17 @@ class WaitRun(object):
         self.tick += 1
         self.now   = T0 + self.tick / 10.0       # == tick * dt, without float drift
         k = self.tick - 1
-        if k < len(self.case['traj']):
+        if self.mode == 'notify':
+            if k < len(self.case['notes']):
+                self.deliver(self.case['notes'][k])
+                if self.case['closing'][k]:
+                    self.term.set()
+        elif k < len(self.case['traj']):
             for e, code in zip(self.ents, self.case['traj'][k]):
                 e._state = name_of(self.api, code)
             if self.case['closing'][k]:
                 self.term.set()
-        self.log('Poll', st=self.codes(), closing=self.term.is_set())
+        self.log('Poll', st=self.codes(), seen=self.seen(), closing=self.term.is_set())
 
     # --------------------------------------------------------------------------
     def args(self):
@@ -208,7 +315,7 @@ class WaitRun(object):
         c = self.case
         _clock.run = self
         uids, state, timeout = self.args()
-        self.log('Call', st=self.codes(), closing=self.term.is_set())
+        self.log('Call', st=self.codes(), seen=self.seen(), closing=self.term.is_set())
         try:
             if   self.api == 'task' : ret = self.ents[c['awaited'][0] - 1].wait(state=state, timeout=timeout)
             elif self.api == 'pilot': ret = self.ents[c['awaited'][0] - 1].wait(state=state, timeout=timeout)
@@ -218,7 +325,8 @@ class WaitRun(object):
             elif isinstance(ret, str)  : shape, val = 'scalar', [code_of(self.api, ret)]
             elif isinstance(ret, list) : shape, val = 'list',   [code_of(self.api, r) for r in ret]
             else                       : shape, val = 'other',  []
-            self.log('Return', shape=shape, val=val, st=self.codes(), closing=self.term.is_set())
+            self.log('Return', shape=shape, val=val, st=self.codes(), seen=self.seen(),
+                     closing=self.term.is_set())
         except Unwind:
             pass
         except Exception as e:
@@ -227,7 +335,8 @@ class WaitRun(object):
             _clock.run = None
         return {'api': self.api, 'nn': nn_of(self.api), 'ne': self.ne, 'kind': c['kind'],
                 'awaited': list(c['awaited']), 'rform': c['rform'], 'R': list(c['R']),
-                'timeout': c['timeout'], 'events': self.events}
+                'timeout': c['timeout'], 'mode': self.mode,
+                'notify_raised': len(self.notify_raised), 'events': self.events}
 
 
 def run_cases(cases):
@@ -241,11 +350,76 @@ def run_cases(cases):
 # ------------------------------------------------------------------------------
 # case generation
 #
-def make_case(api, ne, kind, awaited, rform, R, timeout, st0, traj, closing0=False, closing=None):
-    return {'api': api, 'ne': ne, 'kind': kind, 'awaited': list(awaited), 'rform': rform,
-            'R': sorted(R), 'timeout': timeout, 'st0': list(st0), 'closing0': bool(closing0),
-            'traj': [list(v) for v in traj],
-            'closing': [bool(x) for x in (closing if closing is not None else [False] * len(traj))]}
+def make_case(api, ne, kind, awaited, rform, R, timeout, st0, traj, closing0=False, closing=None,
+              mode='direct', notes0=None, notes=None):
+    c = {'api': api, 'ne': ne, 'kind': kind, 'awaited': list(awaited), 'rform': rform,
+         'R': sorted(R), 'timeout': timeout, 'st0': list(st0), 'closing0': bool(closing0),
+         'traj': [list(v) for v in traj],
+         'closing': [bool(x) for x in (closing if closing is not None else [False] * len(traj))]}
+    if mode != 'direct':
+        c['mode']   = mode
+        c['notes0'] = [list(n) for n in (notes0 or [])]
+        c['notes']  = [[list(n) for n in tick] for tick in (notes or [])]
+    return c
+
+
+def stale_codes(nn, code):
+    '''notifications which are stale once `code` was notified: every earlier
+       non-final state (after a final state: every non-final state)'''
+    return list(range(min(code, nn)))
+
+
+def to_notify(case, rng=None, policy='random', stale=None):
+    '''the same call and trajectory, but applied through notifications: per
+       entity and tick the forward step (if any), plus
+         policy 'none'   : nothing else
+                'echo'   : after every forward step the previous state again
+                           (reordered delivery), and after a final state the
+                           last non-final one
+                'random' : seeded duplicates / stale / post-final notifications,
+                           in random order after the forward step
+         stale  (optional) per tick vectors: a stale state which arrives last in
+                that tick for the entity, or -1 (used for TLC behaviours)'''
+    nn  = nn_of(case['api'])
+    ne  = case['ne']
+
+    def tick_notes(prev, new, k):
+        out = []
+        for e in range(ne):
+            mine = []
+            if new[e] != prev[e]:
+                mine.append([e + 1, new[e]])
+            old = stale_codes(nn, new[e])
+            if policy == 'echo' and old and (new[e] != prev[e] or new[e] >= nn):
+                mine.append([e + 1, prev[e] if prev[e] < nn and prev[e] != new[e] else old[-1]])
+            elif policy == 'random':
+                extra = []
+                for _ in range(rng.choice([0, 0, 1, 1, 2])):
+                    x = rng.random()
+                    if   x < 0.3 or not old: extra.append([e + 1, new[e]])          # duplicate
+                    else                   : extra.append([e + 1, rng.choice(old)])  # stale
+                if rng.random() < 0.3:
+                    mine = extra + mine          # stale ones may also come first
+                else:
+                    mine = mine + extra
+            if stale is not None and stale[k][e] >= 0 and stale[k][e] != new[e]:
+                mine.append([e + 1, stale[k][e]])
+            out += mine
+        return out
+
+    zero   = [0] * ne
+    notes0 = tick_notes(zero, case['st0'], 0) if stale is None else \
+             [[e + 1, case['st0'][e]] for e in range(ne) if case['st0'][e] != 0]
+    if stale is not None:
+        st0s = stale[0]
+        notes0 += [[e + 1, st0s[e]] for e in range(ne) if st0s[e] >= 0 and st0s[e] != case['st0'][e]]
+    notes, prev = [], case['st0']
+    for k, new in enumerate(case['traj']):
+        notes.append(tick_notes(prev, new, k + 1))
+        prev = new
+    c = dict(case)
+    c['mode'], c['notes0'], c['notes'] = 'notify', notes0, notes
+    return c
 
 
 def embedding(api, nn_model, rng):
